@@ -91,6 +91,9 @@ def main(argv=None):
     for p in pids:
         r = run_one(p, a.tier, a.repo, seed)
         rc = max(rc, r)
+    if os.environ.get('VERIF_DIRECTED_STATS'):
+        from .core.expr import DIRECTED_STATS
+        print('directed sampling:', DIRECTED_STATS)
     sys.stdout.flush()
     os._exit(rc)
 
